@@ -231,6 +231,10 @@ func (w *world) node(k kind, inst int, fmtFor string) (el.NodeID, el.Node) {
 		n = f
 	case kGated:
 		f := &gated.Filter{Broker: w.b, Expiration: 2 * time.Millisecond}
+		if inst%2 == 1 {
+			// the documented defaults, spelled out
+			f.Expiration, f.NowFunc = gated.DefaultEventTimeout, time.Now
+		}
 		w.gateds = append(w.gateds, f)
 		n = f
 	case kJSON:
@@ -247,6 +251,11 @@ func (w *world) node(k kind, inst int, fmtFor string) (el.NodeID, el.Node) {
 		n = f
 	case kFile:
 		f := &el.FileSink{Path: filepath.Join(w.dir, fmt.Sprintf("fs%d-%s", inst, fmtFor)), FileName: "ev.log", MaxBytes: 600, MaxFiles: 3, Format: fmtFor}
+		if inst%2 == 1 {
+			f.Mode = 0o600 // the documented default, spelled out
+		} else if fmtFor == el.JSONFormat {
+			f.Format = "" // left to the default
+		}
 		w.files = append(w.files, f)
 		n = f
 	case kFileSame:
@@ -264,11 +273,19 @@ func (w *world) node(k kind, inst int, fmtFor string) (el.NodeID, el.Node) {
 	case kWriter:
 		cw := &checkedWriter{}
 		w.writers[name] = cw
-		n = &writer.Sink{Format: fmtFor, Writer: cw}
+		ws := &writer.Sink{Format: fmtFor, Writer: cw}
+		if inst%2 == 0 && fmtFor == el.JSONFormat {
+			ws.Format = "" // left to the default
+		}
+		n = ws
 	case kChan:
 		c := make(chan *el.Event, 16)
 		w.chans = append(w.chans, c)
-		s, err := channel.NewChannelSink(c, 50*time.Millisecond)
+		timeout := 50 * time.Millisecond
+		if inst%2 == 1 {
+			timeout = 300 * time.Microsecond // a sub-millisecond timeout: Process gives up while the consumer is busy
+		}
+		s, err := channel.NewChannelSink(c, timeout)
 		if err != nil {
 			panic(err)
 		}
@@ -533,7 +550,27 @@ func runScenario(sc scenario, seed uint64, dir string) result {
 		} else {
 			pl = w.payload(rs, idx, hasGated)
 		}
-		st, err := w.b.Send(ctx, el.EventType(t), pl)
+		sctx := ctx
+		if !(sc.ExactOnce || sc.PerPipeline || sc.NeedPlain) && idx%8 == 7 {
+			// a caller whose context is (or becomes) done: such a Send may reach any subset of the sinks, each line whole
+			var cancel context.CancelFunc
+			switch (idx / 8) % 4 {
+			case 0:
+				sctx, cancel = context.WithCancel(ctx)
+				cancel()
+			case 1:
+				sctx, cancel = context.WithDeadline(ctx, time.Now().Add(-time.Second))
+			case 2:
+				sctx, cancel = context.WithTimeout(ctx, 30*time.Microsecond)
+			default:
+				var cc context.CancelCauseFunc
+				sctx, cc = context.WithCancelCause(ctx)
+				cancel = func() {}
+				go func() { runtime.Gosched(); cc(fmt.Errorf("caller gave up")) }()
+			}
+			defer cancel()
+		}
+		st, err := w.b.Send(sctx, el.EventType(t), pl)
 		atomic.AddInt64(&w.sent, 1)
 		if err != nil {
 			atomic.AddInt64(&w.sendErrs, 1)
@@ -629,6 +666,60 @@ func runScenario(sc scenario, seed uint64, dir string) result {
 				if len(w.gateds) > 0 {
 					_ = w.gateds[i%len(w.gateds)].FlushAll(ctx)
 				}
+			})
+		case "node-methods":
+			// every exported method of every stock node, racing Process
+			var ns []el.Node
+			for _, n := range w.nodes {
+				ns = append(ns, n)
+			}
+			ctl(c, func(i int) {
+				n := ns[i%len(ns)]
+				_ = n.Type()
+				if nm, ok := n.(interface{ Name() string }); ok {
+					_ = nm.Name()
+				}
+				if _, isFile := n.(*el.FileSink); !isFile || !sc.ExactOnce {
+					_ = n.Reopen()
+				}
+				switch x := n.(type) {
+				case *gated.Filter:
+					_ = x.Now()
+					if i%3 == 0 {
+						_ = x.Close(ctx) // Close flushes; the filter stays in use
+					} else {
+						_ = x.FlushAll(ctx)
+					}
+				case *encrypt.Filter:
+					x.Rotate()
+					x.Rotate(encrypt.WithSalt([]byte("s3")), encrypt.WithInfo([]byte("i3")))
+				case *cloudevents.FormatterFilter:
+					_ = x.Rotate(signer("m"))
+				}
+			})
+		case "file-interfere":
+			// somebody else in the sinks' directories: the active file renamed away, its times changed, foreign files with
+			// look-alike names (each a whole JSON document, so the integrity oracle reads them like the sink's own)
+			ctl(c, func(i int) {
+				if len(w.files) == 0 {
+					return
+				}
+				f := w.files[i%len(w.files)]
+				active := filepath.Join(f.Path, f.FileName)
+				switch i % 4 {
+				case 0:
+					_ = os.Rename(active, filepath.Join(f.Path, "ev.log.moved"))
+					_ = f.Reopen()
+				case 1:
+					_ = os.Chtimes(active, time.Now().Add(-48*time.Hour), time.Now().Add(-48*time.Hour))
+				case 2:
+					_ = os.Chtimes(active, time.Now().Add(48*time.Hour), time.Now().Add(48*time.Hour))
+				case 3:
+					for _, twin := range []string{"ev.log ", "EV.log", "ev-.log", "ev.log.1"} {
+						_ = os.WriteFile(filepath.Join(f.Path, twin), []byte("{\"foreign\":true}\n"), 0o600)
+					}
+				}
+				time.Sleep(500 * time.Microsecond)
 			})
 		case "thresholds":
 			ctl(c, func(i int) { _ = w.b.SetSuccessThreshold(el.EventType(tlist[0]), i%2); w.b.SuccessThresholdSinks(el.EventType(tlist[0])) })
@@ -878,10 +969,10 @@ func focused(per int) []scenario {
 		{Name: "copy-vs-format", Senders: 2, PerSend: per, Controls: nil,
 			Pipes: []pipeSpec{{Type: "t1", Kinds: k(kFilter, kEnc, kJSON, kWriter), Insts: []int{0, 0, 0, 0}}, {Type: "t1", Kinds: k(kFilter, kJSON, kWriter), Insts: []int{0, 0, 1}}}},
 		// a file sink shared by two pipelines, rotating, reopened from outside
-		{Name: "filesink-shared", Senders: 6, PerSend: per, Controls: []string{"broker-reopen", "file-reopen"},
+		{Name: "filesink-shared", Senders: 6, PerSend: per, Controls: []string{"broker-reopen", "file-reopen", "node-methods", "file-interfere"},
 			Pipes: []pipeSpec{{Type: "t1", Kinds: k(kJSON, kFile), Insts: []int{0, 0}}, {Type: "t2", Kinds: k(kFilter, kJSON, kFile), Insts: []int{0, 0, 0}}}},
 		// a gated filter shared by two pipelines and wired to the same broker, flushed from outside
-		{Name: "gated-shared", Senders: 4, PerSend: per, Controls: []string{"gated-flushall"},
+		{Name: "gated-shared", Senders: 4, PerSend: per, Controls: []string{"gated-flushall", "node-methods"},
 			Pipes: []pipeSpec{{Type: "t1", Kinds: k(kGated, kJSON, kWriter), Insts: []int{0, 0, 0}}, {Type: "t2", Kinds: k(kGated, kJSONFF, kWriter), Insts: []int{0, 0, 0}}}},
 		// the same event through a bare formatter and through encrypt -> formatter: each sink must render its own pipeline's view
 		{Name: "enc-vs-plain", Senders: 4, PerSend: per, NeedPlain: true, PlainOnly: true,
@@ -899,8 +990,9 @@ func focused(per int) []scenario {
 		{Name: "filesink-rotate-stamped", Senders: 6, PerSend: per, ExactOnce: true, Controls: []string{"file-reopen"},
 			Pipes: []pipeSpec{{Type: "t1", Kinds: k(kJSON, kFileRotStamped), Insts: []int{0, 0}}}},
 		// one writer sink and one channel sink under 8 senders, two formatters for one type
-		{Name: "sinks-shared", Senders: 8, PerSend: per, Controls: []string{"thresholds", "broker-reopen"},
-			Pipes: []pipeSpec{{Type: "t1", Kinds: k(kJSON, kWriter), Insts: []int{0, 0}}, {Type: "t1", Kinds: k(kJSONFF, kWriter), Insts: []int{0, 0}}, {Type: "t1", Kinds: k(kCEJ, kChan), Insts: []int{0, 0}}}},
+		{Name: "sinks-shared", Senders: 8, PerSend: per, Controls: []string{"thresholds", "broker-reopen", "node-methods"},
+			Pipes: []pipeSpec{{Type: "t1", Kinds: k(kJSON, kWriter), Insts: []int{0, 0}}, {Type: "t1", Kinds: k(kJSONFF, kWriter), Insts: []int{0, 0}}, {Type: "t1", Kinds: k(kCEJ, kChan), Insts: []int{0, 0}},
+				{Type: "t1", Kinds: k(kFilter, kCET, kChan), Insts: []int{0, 0, 1}}}},
 	}
 }
 
@@ -922,7 +1014,7 @@ func pairScenarios(per int) []scenario {
 	var out []scenario
 	for j := 0; j < len(pipes); j += 3 {
 		out = append(out, scenario{Name: fmt.Sprintf("pairs-%d", j/3), Pipes: pipes[j : j+3], Senders: 3, PerSend: per / 2,
-			Controls: []string{"broker-reopen", "enc-rotate", "ce-rotate", "file-reopen"}})
+			Controls: []string{"broker-reopen", "enc-rotate", "ce-rotate", "file-reopen", "node-methods"}})
 	}
 	return out
 }
@@ -944,7 +1036,7 @@ func randomScenario(r *hc.Rand, i, per int) scenario {
 		insts = append(insts, r.Intn(2))
 		sc.Pipes = append(sc.Pipes, pipeSpec{Type: fmt.Sprintf("t%d", 1+r.Intn(2)), Kinds: kinds, Insts: insts})
 	}
-	all := []string{"broker-reopen", "file-reopen", "enc-rotate", "ce-rotate", "gated-flushall", "thresholds"}
+	all := []string{"broker-reopen", "file-reopen", "enc-rotate", "ce-rotate", "gated-flushall", "thresholds", "node-methods", "file-interfere"}
 	for _, c := range all {
 		if r.Chance(2, 3) {
 			sc.Controls = append(sc.Controls, c)
